@@ -44,7 +44,8 @@ def run(ck, models, tier, ws):
             if not eff and v.status != "returned":
                 continue
             # which verifier variant is this path about?
-            dv = [d_ for d_ in v.decisions if d_[0].op == "discr"]
+            dv = [d_ for d_ in v.decisions if d_[0].op == "discr" and any(
+                ("CallCountVerifier" in fmt(l, 8) or "fake_pair" in fmt(l, 8) or "verifier" in fmt(l, 8)) for l in deps(v, d_[0])[0] | {d_[0]})]
             stores = [e for e in v.trace if e.kind == "ext" and "atomic::Atomic" in e.name and e.name.split("::")[-1] in ("store", "swap")]
             good = [e for e in stores if isinstance(e.args[1], Int) and e.args[1].is_const() and e.args[1].cval() == 0
                     and (not eff or e.idx < min(x.idx for x in eff))]
